@@ -184,15 +184,16 @@ def cubic_bspline3d(
     """
     if dtype is None:
         dtype = torch.float
-    stride_ = cat_scalars(stride, *args, num=3, dtype=torch.int32, device=torch.device("cpu"))
-    kernel = torch.ones((4 * stride_ - 1).tolist(), dtype=torch.float)
-    radius = [n // 2 for n in kernel.shape]
-    for k in range(kernel.shape[2]):
-        w_k = cubic_bspline_value((k - radius[2]) / stride[2], derivative=derivative)
-        for j in range(kernel.shape[1]):
-            w_j = cubic_bspline_value((j - radius[1]) / stride[1], derivative=derivative)
-            for i in range(kernel.shape[0]):
-                w_i = cubic_bspline_value((i - radius[0]) / stride[0], derivative=derivative)
+    stride_ = cat_scalars(stride, *args, num=3, dtype=torch.int32, device=torch.device("cpu")).tolist()
+    size = [4 * s - 1 for s in stride_]  # (nx, ny, nz)
+    kernel = torch.ones((size[2], size[1], size[0]), dtype=dtype)
+    radius = [n // 2 for n in size]
+    for k in range(size[2]):
+        w_k = cubic_bspline_value((k - radius[2]) / stride_[2], derivative=derivative)
+        for j in range(size[1]):
+            w_j = cubic_bspline_value((j - radius[1]) / stride_[1], derivative=derivative)
+            for i in range(size[0]):
+                w_i = cubic_bspline_value((i - radius[0]) / stride_[0], derivative=derivative)
                 kernel[k, j, i] = w_i * w_j * w_k
     if device is None:
         device = kernel.device
